@@ -1,8 +1,10 @@
 (* C15 — saved read assignments round-trip losslessly and can be reused.
    Property theorems only; the model and the proofs are in Codec0.v, SaveFormat.v, SaveFormat2.v.
-   Documented domain (SaveFormat2: u32, u16, s31, short_ascii, id_or_none, list_wf, event_wf, match_wf, dict_wf, ra_wf,
-   basic_wf, ghead_wf): unsigned fields < 2^32 (mapping quality < 2^16), signed fields |v| < 2^31, ASCII strings of fewer
-   than 65 536 characters (gene / transcript ids: None or fewer than 65 535), lists of fewer than 2^32 elements,
+   Documented domain (SaveFormat2: u32, u16, s31, short_text, id_or_none, list_wf, event_wf, match_wf, dict_wf, ra_wf,
+   basic_wf, ghead_wf): unsigned fields < 2^32 (mapping quality < 2^16), signed fields |v| < 2^31, strings = ANY text (list of Unicode scalar values:
+   code points up to U+10FFFF without the surrogates) whose UTF-8 encoding is shorter than 65 536 bytes (gene / transcript ids: None or shorter
+   than 65 535 bytes; short_text = blen s < 65536 /\ text s; after fixes/C15_string_length_in_bytes.diff - the writer before it, which
+   preserves ASCII strings only, is c_str_unrepaired), lists of fewer than 2^32 elements,
    dictionaries with pairwise different keys, penalties as fixed-point integers k = int(p * 2^20) < 2^32,
    EVERY member of ReadAssignmentType / MatchClassification / MatchEventSubtype (as regenerated from the sources).
    `c_ra true` is the format with the repaired read_dict (fixes/C15_read_dict_sign.diff), `c_ra false` the code before it.
@@ -42,7 +44,7 @@ Print Assumptions C15_gene_header_roundtrip.
 (* the layout before the repair does not store the window: it comes back as the gene region, so only those headers survive whose window
    IS the gene region (ghead_wf false demands it) - which is false for every read region reaching beyond the genes (C18:intron-outside-window) *)
 Theorem C15_gene_header_roundtrip_unrepaired : forall g rest,
-  u32 (g_delta g) -> list_wf short_ascii (g_genes g) -> short_ascii (g_chr g) -> u32 (g_start g) -> u32 (g_end g) ->
+  u32 (g_delta g) -> list_wf short_text (g_genes g) -> short_text (g_chr g) -> u32 (g_start g) -> u32 (g_end g) ->
   g_rstart g = g_start g -> g_rend g = g_end g ->
   dec (c_ghead false) (enc (c_ghead false) g ++ rest) = Some (g, rest).
 Proof. intros g rest H1 H2 H3 H4 H5 H6 H7. apply rt_ghead, ghead_wf_dom. exact (conj H1 (conj H2 (conj H3 (conj H4 (conj H5 (conj H6 H7)))))). Qed.
@@ -57,19 +59,19 @@ Theorem C15_primitives_roundtrip :
   (forall v rest, u32 v -> dec c_u32 (enc c_u32 v ++ rest) = Some (v, rest)) /\
   (forall v rest, u16 v -> dec c_u16 (enc c_u16 v ++ rest) = Some (v, rest)) /\
   (forall v rest, s31 v -> dec c_neg (enc c_neg v ++ rest) = Some (v, rest)) /\
-  (forall s rest, short_ascii s -> dec c_str (enc c_str s ++ rest) = Some (s, rest)) /\
+  (forall s rest, short_text s -> dec c_str (enc c_str s ++ rest) = Some (s, rest)) /\
   (forall o rest, id_or_none o -> dec c_str_opt (enc c_str_opt o ++ rest) = Some (o, rest)) /\
   (forall n l rest, length l = n -> (n <= 8)%nat -> dec (c_bools n) (enc (c_bools n) l ++ rest) = Some (l, rest)) /\
   (forall l rest, list_wf pair_wf l -> dec c_pairs (enc c_pairs l ++ rest) = Some (l, rest)) /\
   (forall l rest, list_wf s31 l -> dec c_negs (enc c_negs l ++ rest) = Some (l, rest)) /\
-  (forall l rest, list_wf short_ascii l -> dec c_strs (enc c_strs l ++ rest) = Some (l, rest)) /\
+  (forall l rest, list_wf short_text l -> dec c_strs (enc c_strs l ++ rest) = Some (l, rest)) /\
   (forall d rest, dict_wf true d -> dec (c_dict true) (enc (c_dict true) d ++ rest) = Some (d, rest)).
 Proof.
   split; [exact rt_u32|]. split; [exact rt_u16|]. split; [exact rt_neg|]. split; [exact rt_str|]. split; [exact rt_str_opt|].
   split; [intros n l rest H1 H2; apply rt_bools; split; assumption|].
   split; [intros l rest H; apply rt_pairs, pairs_wf_dom, H|].
   split; [intros l rest H; apply rt_negs; apply (list_wf_dom c_neg s31); [intros x Hx; exact Hx|exact H]|].
-  split; [intros l rest H; apply rt_strs; apply (list_wf_dom c_str short_ascii); [intros x Hx; exact Hx|exact H]|].
+  split; [intros l rest H; apply rt_strs; apply (list_wf_dom c_str short_text); [intros x Hx; exact Hx|exact H]|].
   intros d rest H. apply rt_dict, dict_wf_dom, H.
 Qed.
 Print Assumptions C15_primitives_roundtrip.
@@ -120,10 +122,10 @@ Proof. intros ls rest H. apply multimap_file_roundtrip. eapply Forall_impl; [|ex
   intros l [Hl Hf]. split; [exact Hl|]. eapply Forall_impl; [|exact Hf]. intros b Hb. apply basic_wf_dom, Hb. Qed.
 Print Assumptions C15_multimap_file_roundtrip.
 
-Theorem C15_info_file_roundtrip : forall t p gs rest, u32 t -> u32 p -> list_wf short_ascii gs ->
+Theorem C15_info_file_roundtrip : forall t p gs rest, u32 t -> u32 p -> list_wf short_text gs ->
   dec c_info (enc c_info (t, (p, gs)) ++ rest) = Some ((t, (p, gs)), rest).
 Proof. intros t p gs rest Ht Hp Hg. apply rt_info. split; [exact Ht|]. split; [exact Hp|].
-  apply (list_wf_dom c_str short_ascii); [intros x Hx; exact Hx|exact Hg]. Qed.
+  apply (list_wf_dom c_str short_text); [intros x Hx; exact Hx|exact Hg]. Qed.
 Print Assumptions C15_info_file_roundtrip.
 
 (* --- penalties are stored in fixed point: writing is idempotent on stored values, the error is below 2^-20 *)
@@ -153,13 +155,27 @@ Print Assumptions C15_constants_agree.
 
 (* --- outside the documented domain: what the faithful model (and, by the correspondences, the code) does *)
 (* a non-ASCII string: the character count is stored, UTF-8 bytes are written; the reader fails ... *)
-Example C15_non_ascii_string_refuted : dec c_str (enc c_str [233%N]) = None.
+(* the writer before fixes/C15_string_length_in_bytes.diff (c_str_unrepaired: the prefix counts characters, the reader takes bytes) loses
+   every non-ASCII string - known finding C15:string-length-in-characters; the repaired codec c_str returns it *)
+Example C15_non_ascii_string_refuted :
+  dec c_str_unrepaired (enc c_str_unrepaired [233%N]) = None /\ dec c_str (enc c_str [233%N]) = Some ([233%N], []).
 Proof. exact non_ascii_string_refuted. Qed.
-(* ... or returns another string and leaves the stream misaligned *)
-Example C15_non_ascii_string_misaligned_refuted : forall rest, dec c_str (enc c_str [233%N; 97%N] ++ rest) = Some ([233%N], 97%N :: rest).
+(* the unrepaired stream is misaligned behind such a string *)
+Example C15_non_ascii_string_misaligned_refuted : forall rest,
+  dec c_str_unrepaired (enc c_str_unrepaired [233%N; 97%N] ++ rest) = Some ([233%N], 97%N :: rest) /\
+  dec c_str (enc c_str [233%N; 97%N] ++ rest) = Some ([233%N; 97%N], rest).
 Proof. exact non_ascii_string_misaligned_refuted. Qed.
-(* an id of exactly 65 535 characters reads back as None and its characters stay in the stream *)
-Example C15_len65535_or_none_refuted : forall s, N.of_nat (length s) = 65535%N ->
+(* what the unrepaired writer does preserve: ASCII strings, on which both writers produce the same bytes *)
+Theorem C15_string_roundtrip_unrepaired : forall s rest, short_ascii s ->
+  dec c_str_unrepaired (enc c_str_unrepaired s ++ rest) = Some (s, rest) /\ enc c_str s = enc c_str_unrepaired s /\ short_text s.
+Proof. intros s rest H. split; [apply rt_str_unrepaired, H|]. split; [apply enc_str_ascii, H|apply short_ascii_text, H]. Qed.
+Print Assumptions C15_string_roundtrip_unrepaired.
+(* UTF-8: the strict decoder inverts the encoder on every text (all Unicode scalar values, 1- to 4-byte forms) *)
+Theorem C15_utf8_roundtrip : forall s, text s -> utf8_dec (utf8 s) = Some s.
+Proof. exact utf8_roundtrip. Qed.
+Print Assumptions C15_utf8_roundtrip.
+(* an id whose encoding has exactly 65 535 bytes reads back as None and its bytes stay in the stream *)
+Example C15_len65535_or_none_refuted : forall s, blen s = 65535%N ->
   forall rest, dec c_str_opt (enc c_str_opt (Some s) ++ rest) = Some (None, utf8 s ++ rest).
 Proof. exact len65535_or_none_refuted. Qed.
 (* read_dict before the repair reads sign-bit integers as unsigned: -5 comes back as 2^31 + 5 *)
@@ -178,14 +194,14 @@ Proof. exact multimap_terminator_collision_refuted. Qed.
 (* --- non-vacuity: a record in the domain with a negative event offset, a None id, sentinels and a negative attribute *)
 Local Open Scope Z_scope.
 Definition ex_ra : rassign :=
-  MkRA 7 [114%N] (100, 900) [(100, 200); (300, 400)] [(100, 200); (300, 400)] [false; true; false] (-1, -1, 405, -1)
+  MkRA 7 [114%N; 233%N; 20013%N; 128512%N] (100, 900) [(100, 200); (300, 400)] [(100, 200); (300, 400)] [false; true; false] (-1, -1, 405, -1)
        [78%N; 65%N] [43%N] [43%N] [99%N; 57%N] 60 RAT_unique_minor_difference RAT_unique
        [MkMatch (Some [71%N]) None [43%N] MC_incomplete_splice_match 314572 [MkEvent MES_exon_elongation_left (0, 0) (2147483648, 2147483648) (-17)]]
        [([97%N], DInt (-5))] [] true [1; -1; 0] [1].
 Example C15_example_in_domain : ra_wf true ex_ra /\ ra_exons ex_ra <> [].
-Proof. unfold ra_wf, ex_ra, u32, u16, s31, short_ascii, pair_wf, list_wf, count32, dict_wf, ascii; cbn.
+Proof. unfold ra_wf, ex_ra, u32, u16, s31, short_text, pair_wf, list_wf, count32, dict_wf, text, blen, scalar; cbn.
   repeat match goal with |- _ /\ _ => split end; try reflexivity; try discriminate;
-    repeat (constructor; cbn; unfold event_wf, match_wf, id_or_none, short_ascii, list_wf, count32, ascii, u32, s31; cbn);
+    repeat (constructor; cbn; unfold event_wf, match_wf, id_or_none, short_text, list_wf, count32, text, blen, scalar, u32, s31; cbn);
     repeat match goal with |- _ /\ _ => split end; try reflexivity; try discriminate; try (intros []); auto;
     repeat (constructor; cbn; unfold event_wf, u32, s31; cbn; repeat split; try reflexivity; try discriminate). Qed.
 Example C15_example_roundtrip : dec (c_ra true) (enc (c_ra true) ex_ra) = Some (ex_ra, []) /\ dec_quick true (enc (c_ra true) ex_ra) = Some (basic_of ex_ra, []).
